@@ -81,8 +81,8 @@ def GInv (cfg : Cfg) (st : State) : Prop :=
 
 /-- `no_stranded_data`: a descriptor with data behind `LastKnwnPos` has a worker (outside shutdown; `stale` marks a
 descriptor loaded by a restart from a stop that was not quiescent) -/
-def NS (st : State) : Prop :=
-  ∀ s d, (st.srcs s).desc = some d → st.closed = true ∨ d.charged = true ∨ ¬ d.pos < d.lastKnown ∨ d.stale = true
+def NS (cfg : Cfg) (st : State) : Prop :=
+  ∀ s d, (st.srcs s).desc = some d → noStart cfg st = true ∨ d.charged = true ∨ ¬ d.pos < d.lastKnown ∨ d.stale = true
 
 theorem ginv_init (cfg : Cfg) (n : Nat) (l : Nat → Bool) (p : Nat → Bytes) (f : Ev → Bool) (o : Bool) :
     GInv cfg (init n l p f o) := by
@@ -253,7 +253,7 @@ theorem ginv_notify (cfg : Cfg) (st st' : State) (h : GInv cfg st)
       split at hs
       · simp only [Option.some.injEq] at hs; subst hs
         apply ginv_upd cfg st we.src _ st.dest rest st.pend _ h
-        · exact sinv_onWriteEvent cfg st.flt st.closed _ we _ (h.1 we.src) hweI.2.1 hweI.2.2
+        · exact sinv_onWriteEvent cfg st.flt (noStart cfg st) _ we _ (h.1 we.src) hweI.2.1 hweI.2.2
         · intro s' _; rfl
         · unfold onWriteEvent startWorker
           cases (st.srcs we.src).desc <;> simp only [] <;> split <;> simp
@@ -442,7 +442,7 @@ theorem ginv_wdone (cfg : Cfg) (st st' : State) (s : Nat) (h : GInv cfg st)
       ⟨a1, by simp [curOf], by simpa [curOf] using a3, by simp, by intro c hc; simp at hc, by simpa [curOf] using a6, a7, a8⟩
     apply ginv_upd cfg st s _ st.dest st.chan st.pend st.cache h
     · split
-      · exact dinv_startWorker cfg st.flt st.closed _ _ _ hD
+      · exact dinv_startWorker cfg st.flt (noStart cfg st) _ _ _ hD
       · constructor
         · intro hn; simp at hn
         · intro d' hd'
@@ -609,17 +609,23 @@ theorem ns_onWriteEvent (closed : Bool) (σ : SrcSt) (we : WE) (d' : Desc) (h : 
   unfold onWriteEvent at h
   split at h <;> exact ns_startWorker _ _ _ _ h
 
-/-- a step that keeps `closed` and changes the descriptor of at most one source to a non-stranded one -/
-theorem ns_upd (st : State) (s : Nat) (σ' : SrcSt) (h : NS st)
-    (hs : ∀ d, σ'.desc = some d → NSd st.closed d) : ∀ s' d, (upd st.srcs s σ' s').desc = some d → NSd st.closed d := by
+/-- a step that changes the descriptor of at most one source to a non-stranded one -/
+theorem ns_upd (cfg : Cfg) (st : State) (s : Nat) (σ' : SrcSt) (h : NS cfg st)
+    (hs : ∀ d, σ'.desc = some d → NSd (noStart cfg st) d) :
+    ∀ s' d, (upd st.srcs s σ' s').desc = some d → NSd (noStart cfg st) d := by
   intro s' d hd
   by_cases e : s' = s
   · subst e; simp only [upd_self] at hd; exact hs d hd
   · rw [upd_ne _ _ _ _ e] at hd; exact h s' d hd
 
-theorem step_ns (cfg : Cfg) (hre : cfg.rearm = true) (st st' : State) (l : Label) (hg : GInv cfg st) (h : NS st)
-    (hs : step cfg st l = some st') : NS st' := by
-  have same : ∀ σ' : SrcSt, ∀ s, σ'.desc = (st.srcs s).desc → ∀ d, σ'.desc = some d → NSd st.closed d := by
+theorem nsd_mono (b b' : Bool) (d : Desc) (hb : b = true → b' = true) (h : NSd b d) : NSd b' d := by
+  rcases h with h | h
+  · exact Or.inl (hb h)
+  · exact Or.inr h
+
+theorem step_ns (cfg : Cfg) (hre : cfg.rearm = true) (st st' : State) (l : Label) (hg : GInv cfg st) (h : NS cfg st)
+    (hs : step cfg st l = some st') : NS cfg st' := by
+  have same : ∀ σ' : SrcSt, ∀ s, σ'.desc = (st.srcs s).desc → ∀ d, σ'.desc = some d → NSd (noStart cfg st) d := by
     intro σ' s e d hd; rw [e] at hd; exact h s d hd
   cases l with
   | write s b =>
@@ -627,7 +633,7 @@ theorem step_ns (cfg : Cfg) (hre : cfg.rearm = true) (st st' : State) (l : Label
     split at hs
     · cases hs
     · simp only [Option.some.injEq] at hs; subst hs
-      exact ns_upd st s _ h (same _ s rfl)
+      exact ns_upd cfg st s _ h (same _ s rfl)
   | enqueue i =>
     simp only [step] at hs
     split at hs
@@ -643,13 +649,13 @@ theorem step_ns (cfg : Cfg) (hre : cfg.rearm = true) (st st' : State) (l : Label
       · cases hs
       · split at hs
         · simp only [Option.some.injEq] at hs; subst hs
-          exact ns_upd st _ _ h (fun d hd => ns_onWriteEvent _ _ _ d hd)
+          exact ns_upd cfg st _ _ h (fun d hd => ns_onWriteEvent _ _ _ d hd)
         · simp only [Option.some.injEq] at hs; subst hs; exact h
   | wopen s =>
     simp only [step] at hs
     split at hs
     · simp only [Option.some.injEq] at hs; subst hs
-      exact ns_upd st s _ h (same _ s rfl)
+      exact ns_upd cfg st s _ h (same _ s rfl)
     · cases hs
   | wcopy s k =>
     simp only [step] at hs
@@ -657,7 +663,7 @@ theorem step_ns (cfg : Cfg) (hre : cfg.rearm = true) (st st' : State) (l : Label
     · split at hs
       · cases hs
       · simp only [Option.some.injEq] at hs; subst hs
-        exact ns_upd st s _ h (same _ s rfl)
+        exact ns_upd cfg st s _ h (same _ s rfl)
     · cases hs
   | wsave s =>
     simp only [step] at hs
@@ -666,7 +672,7 @@ theorem step_ns (cfg : Cfg) (hre : cfg.rearm = true) (st st' : State) (l : Label
       simp only [Option.some.injEq] at hs; subst hs
       intro s' d' hd'
       simp only [] at hd'
-      refine ns_upd st s _ h ?_ s' d' hd'
+      refine ns_upd cfg st s _ h ?_ s' d' hd'
       intro d2 hd2
       simp only [Option.some.injEq] at hd2; subst hd2
       have a4 := ((hg.1 s).2 d hd).2.2.2.1
@@ -678,37 +684,52 @@ theorem step_ns (cfg : Cfg) (hre : cfg.rearm = true) (st st' : State) (l : Label
     simp only [step] at hs
     split at hs
     · simp only [Option.some.injEq] at hs; subst hs
-      exact ns_upd st s _ h (same _ s rfl)
+      exact ns_upd cfg st s _ h (same _ s rfl)
     · simp only [Option.some.injEq] at hs; subst hs
-      exact ns_upd st s _ h (same _ s rfl)
+      exact ns_upd cfg st s _ h (same _ s rfl)
     · cases hs
   | wdone s =>
     simp only [step] at hs
     split at hs
     · simp only [Option.some.injEq, hre, if_true] at hs; subst hs
-      exact ns_upd st s _ h (fun d hd => ns_startWorker _ _ _ d hd)
+      exact ns_upd cfg st s _ h (fun d hd => ns_startWorker _ _ _ d hd)
     · cases hs
   | create =>
     simp only [step] at hs
     split at hs
     · cases hs
-    · simp only [Option.some.injEq] at hs; subst hs
-      intro s d hd; exact h s d hd
+    · rename_i hg'
+      simp only [Bool.or_eq_true, bne_iff_ne, ne_eq, not_or, Bool.not_eq_true, Decidable.not_not] at hg'
+      simp only [Option.some.injEq] at hs; subst hs
+      intro s d hd
+      refine nsd_mono _ _ d ?_ (h s d hd)
+      intro hb
+      simp only [noStart, hg'.2] at hb ⊢
+      simpa using hb
   | delete =>
     simp only [step] at hs
     split at hs
     · cases hs
-    · simp only [Option.some.injEq] at hs; subst hs; exact h
+    · simp only [Option.some.injEq] at hs; subst hs
+      intro s d hd
+      refine nsd_mono _ _ d ?_ (h s d hd)
+      intro hb
+      simp only [noStart, Bool.or_eq_true] at hb ⊢
+      rcases hb with hb | hb
+      · exact Or.inl hb
+      · simp only [Bool.and_eq_true] at hb
+        exact Or.inr (by simp [hb.1])
   | shutdown =>
     simp only [step] at hs
     split at hs
     · cases hs
     · simp only [Option.some.injEq] at hs; subst hs
-      intro s d _; exact Or.inl rfl
+      intro s d _; exact Or.inl (by simp [noStart])
   | halt =>
     simp only [step] at hs
     split at hs
-    · simp only [Option.some.injEq] at hs; subst hs; exact h
+    · simp only [Option.some.injEq] at hs; subst hs
+      intro s d hd; exact h s d hd
     · cases hs
   | restart =>
     simp only [step] at hs
@@ -725,8 +746,8 @@ theorem step_ns (cfg : Cfg) (hre : cfg.rearm = true) (st st' : State) (l : Label
         · exact Or.inr (Or.inr (Or.inl hlt))
     · cases hs
 
-theorem run_ns (cfg : Cfg) (hre : cfg.rearm = true) (st : State) (ls : List Label) (hg : GInv cfg st) (h : NS st) :
-    NS (run cfg st ls) := by
+theorem run_ns (cfg : Cfg) (hre : cfg.rearm = true) (st : State) (ls : List Label) (hg : GInv cfg st) (h : NS cfg st) :
+    NS cfg (run cfg st ls) := by
   induction ls generalizing st with
   | nil => simpa [run] using h
   | cons l ls ih =>
